@@ -651,5 +651,8 @@ def make_builtins(import_hook, quiet_print=True):
     b["type"] = b_type
     b["set"] = PSet
     if quiet_print:
-        b["print"] = lambda *a, **k: None
+        def _print(*a, **k):
+            # format like print (so that formatting errors surface) but write nothing
+            k.get("sep", " ").join(str(x) for x in a)
+        b["print"] = _print
     return b
